@@ -1,3 +1,178 @@
-import ScryerModel.Model.Csv
+import ScryerModel.Proofs.Csv
+/-!
+# C51 — CSV parsing and writing follow the documented format (`library(csv)`)
+
+Statements over `Model/Csv.lean`. The reader `parseCsv` mirrors the DCG of
+`/repo/src/lib/csv.pl` non-terminal by non-terminal; the writer `writeCsv` is the DOCUMENTED
+format (same control structure as `write_csv_/3`, string fields as RFC 4180 quoted fields).
+`writeCsvAsIs` is the writer as the code stands; where it differs is shown by `example`s at
+the end (the two open findings C51-1 and C51-2). The implementation is tied to these
+definitions by the correspondence run (`vlib/props/C51.py`); nothing here is bounded in size:
+field texts, numbers, widths and row counts are arbitrary.
+-/
 namespace Scryer.Csv
+
+/-- A quoted field reads back as its text, for EVERY text (separators, quotes, CR, LF, anything):
+    `parseField (quoteField s) = s`. -/
+theorem C51_quoted_field_roundtrip (s : List Char) : parseField (quoteField s) = some s := by
+  have h := stringTokens_escapeQ s [] (by intro r' h; simp at h)
+  simp [parseField, quoteField, h]
+
+/-- The same inside a line: whatever follows the closing quote (as long as it is not another
+    quote — the writer continues with a separator, a line end, or nothing), the reader's
+    `field//2` returns exactly the text and stops right behind the closing quote. No
+    assumption on the separator. -/
+theorem C51_quoted_field_in_context (sep : Char) (s r : List Char) (hr : ∀ r', r ≠ '"' :: r') :
+    field sep (quoteField s ++ r) = some (mkStr s, r) := by
+  have h := stringTokens_escapeQ s r hr
+  simp only [quoteField, List.cons_append, List.append_assoc, List.nil_append]
+  unfold field
+  simp [h]
+
+/-- Unquoted output (the only things written without quotes are numbers; null is written as
+    nothing) consists of number characters only, hence never contains a quote, CR or LF; it
+    does not contain the separator either unless the separator is itself one of
+    `0-9 - + . e E`. Strings are always written quoted (`renderField o (.str s) = quoteField s`
+    by definition). -/
+theorem C51_unquoted_output_clean (o : Opts) (f : Field)
+    (hf : (∃ i, f = .int i) ∨ (∃ l, f = .flt l ∧ isFloatLex l = true) ∨ (f = .null ∧ o.nullValue = none)) :
+    ∀ c ∈ renderField o f,
+      isNumChar c = true ∧ c ≠ '"' ∧ c ≠ '\n' ∧ c ≠ '\r' ∧ (isNumChar o.sep = false → c ≠ o.sep) := by
+  have key : ∀ t : List Char, (∀ c ∈ t, isNumChar c = true) → ∀ c ∈ t,
+      isNumChar c = true ∧ c ≠ '"' ∧ c ≠ '\n' ∧ c ≠ '\r' ∧ (isNumChar o.sep = false → c ≠ o.sep) := by
+    intro t ht c hc
+    have h := ht c hc
+    have hn := numChar_ne h
+    refine ⟨h, hn.1, hn.2.1, hn.2.2, ?_⟩
+    intro hsep e
+    rw [e, hsep] at h
+    exact absurd h (by decide)
+  rcases hf with ⟨i, rfl⟩ | ⟨l, rfl, hl⟩ | ⟨rfl, hn⟩
+  · exact key _ (renderInt_numChars i)
+  · exact key _ (floatLex_numChars hl).1
+  · intro c hc
+    simp [renderField, renderNull, hn] at hc
+
+/-- Written numbers are typed back as the same number: an integer of any size, a float lexeme. -/
+theorem C51_number_typing (i : Int) (l : List Char) (hl : isFloatLex l = true) :
+    classify (renderInt i) = .int i ∧ classify l = .flt l :=
+  ⟨classify_renderInt i, classify_floatLex hl⟩
+
+/-- ROUND TRIP. For every option set with a sane separator (not `"`, CR, LF) and a line
+    separator among LF, CRLF, CR, and every frame whose lines have at least one field, are not
+    a lone empty field, and whose fields are non-empty strings (ANY text), integers, float
+    lexemes or null (null only under `null_value(empty)`), with numbers not containing the
+    separator — `wf o t` — the documented writer succeeds and the reader gives the frame back:
+    the same header (or `[]` under `with_header(false)`, where the header is not written) and
+    exactly the same rows. Rows may have different widths. -/
+theorem C51_roundtrip (o : Opts) (t : Frame) (h : wf o t = true) :
+    ∃ T, writeCsv o t = some T ∧
+      parseCsv o T = some ⟨if o.withHeader then t.header else [], t.rows⟩ :=
+  parse_write h
+
+/-- The hypothesis "numbers do not contain the separator" is automatic for every separator
+    that is not a number character: then `wf` only asks for the shape of the frame. -/
+theorem C51_wf_of_plain_separator (o : Opts) (t : Frame)
+    (hsep : isNumChar o.sep = false) (hs : sepOk o = true) (hl : lineSepOk o = true)
+    (hfield : ∀ f, (o.withHeader = true ∧ f ∈ t.header) ∨ (∃ r ∈ t.rows, f ∈ r) →
+      match f with
+      | .null => o.nullValue = none
+      | .str s => s ≠ []
+      | .int _ => True
+      | .flt l => isFloatLex l = true)
+    (hshape : ∀ r, (o.withHeader = true ∧ r = t.header) ∨ r ∈ t.rows → r ≠ [] ∧ r ≠ [Field.null]) :
+    wf o t = true := by
+  have hfo : ∀ f, (o.withHeader = true ∧ f ∈ t.header) ∨ (∃ r ∈ t.rows, f ∈ r) → fieldOk o f = true := by
+    intro f hf
+    have h := hfield f hf
+    have nosep : ∀ l : List Char, (∀ c ∈ l, isNumChar c = true) → o.sep ∉ l := by
+      intro l hl' hc
+      have := hl' _ hc
+      rw [hsep] at this
+      exact absurd this (by decide)
+    cases f with
+    | null => simpa [fieldOk] using h
+    | str s => simpa [fieldOk] using h
+    | int i => simp [fieldOk, nosep _ (renderInt_numChars i)]
+    | flt l =>
+      simp only at h
+      simp [fieldOk, h, nosep _ (floatLex_numChars h).1]
+  have hro : ∀ r, (o.withHeader = true ∧ r = t.header) ∨ r ∈ t.rows → rowOk o r = true := by
+    intro r hr
+    have := hshape r hr
+    refine rowOk_iff.mpr ⟨this.1, this.2, ?_⟩
+    rw [List.all_eq_true]
+    intro f hf
+    rcases hr with ⟨hw, rfl⟩ | hr
+    · exact hfo f (Or.inl ⟨hw, hf⟩)
+    · exact hfo f (Or.inr ⟨r, hr, hf⟩)
+  simp only [wf, Bool.and_eq_true, Bool.or_eq_true, Bool.not_eq_true']
+  refine ⟨⟨⟨hs, hl⟩, ?_⟩, ?_⟩
+  · cases hw : o.withHeader with
+    | false => exact Or.inl rfl
+    | true => exact Or.inr (hro _ (Or.inl ⟨hw, rfl⟩))
+  · rw [List.all_eq_true]
+    intro r hr
+    exact hro r (Or.inr hr)
+
+/-- Malformed input: a quoted field that is never closed makes the whole parse fail (for all
+    options), it is not silently read as text. -/
+theorem C51_unterminated_quote_fails (o : Opts) (s : List Char) (h : '"' ∉ s) :
+    parseCsv o ('"' :: s) = none :=
+  parse_unterminated o s h
+
+/-- The fuel parameters of the model's `rowF`/`rowsF` (upper bounds for the number of fields /
+    lines, set to the length of the text + 1) never influence a result: more fuel gives the
+    same answer, so "out of fuel" is not a way for the model to fail. -/
+theorem C51_fuel_irrelevant (sep : Char) (cs : List Char) (m : Nat) (hm : cs.length + 1 ≤ m) :
+    rowF sep m cs = row sep cs ∧ rowsF sep m cs = rows sep cs :=
+  ⟨rowF_mono sep _ cs (Nat.lt_succ_self _) m hm, rowsF_mono sep _ cs (Nat.lt_succ_self _) m hm⟩
+
+/-! ## non-vacuity and reached branches -/
+
+private def ex1 : Frame :=
+  ⟨[.str "na,me".toList, .str "q\"t".toList, .str "two\r\nlines".toList],
+   [[.str " x ".toList, .int (-1234567), .null],
+    [.flt "1.5e-10".toList, .str "12".toList, .int 0],
+    [.str "ragged".toList]]⟩
+
+-- the hypotheses hold for an adversarial frame, under several option sets
+example : wf {} ex1 = true := by decide
+example : wf { sep := ';', withHeader := false, lineSep := ['\r', '\n'] } ex1 = true := by decide
+example : wf { sep := '\t', lineSep := ['\r'] } ex1 = true := by decide
+-- the documented example of the library
+example : writeCsv {} ⟨[.str "col1".toList, .str "col2".toList], [[.str "one".toList, .int 2], [.null, .str "three".toList]]⟩
+    = some "\"col1\",\"col2\"\n\"one\",2\n,\"three\"".toList := by decide
+example : parseCsv {} "col1,col2,col3,col4\none,2,,three".toList
+    = some ⟨[.str "col1".toList, .str "col2".toList, .str "col3".toList, .str "col4".toList],
+            [[.str "one".toList, .int 2, .null, .str "three".toList]]⟩ := by decide
+-- number-looking strings stay strings because they are quoted; bare ones are typed
+example : parseCsv { withHeader := false } "\"12\",12, 12,12 ,-  1.5,+1".toList
+    = some ⟨[], [[.str "12".toList, .int 12, .int 12, .str "12 ".toList, .flt "-1.5".toList, .str "+1".toList]]⟩ := by decide
+-- the hypothesis "not a lone empty field" is necessary: such a line is "no line" in CSV
+example : (writeCsv {} ⟨[.str ['a']], [[.null], [.str ['b']]]⟩).bind (parseCsv {}) = some ⟨[.str ['a']], [[.str ['b']]]⟩ := by decide
+-- null with a null_value text does not come back as null (the reader has no such option)
+example : (writeCsv { nullValue := some ['N', 'A'] } ⟨[.str ['a'], .str ['b']], [[.null, .int 1]]⟩).bind (parseCsv {})
+    = some ⟨[.str ['a'], .str ['b']], [[.str ['N', 'A'], .int 1]]⟩ := by decide
+-- a frame without rows is fine in the documented format
+example : (writeCsv {} ⟨[.str ['a']], []⟩).bind (parseCsv {}) = some ⟨[.str ['a']], []⟩ := by decide
+-- malformed: unterminated quote; text after a blank line
+example : parseCsv { withHeader := false } "a,\"bc".toList = none := by decide
+example : parseCsv { withHeader := false } "a,b\n\nc,d".toList = none := by decide
+-- ragged rows are accepted as they are
+example : parseCsv { withHeader := false } "a,b,c\nd\n".toList
+    = some ⟨[], [[.str ['a'], .str ['b'], .str ['c']], [.str ['d']]]⟩ := by decide
+
+/-! ## the writer as the code stands (open findings) -/
+
+-- C51-1: `~w` prints the character list of a string field in list syntax
+example : writeCsvAsIs {} ⟨[.str "ab".toList], [[.int 1]]⟩ = some "[a,b]\n1".toList := by decide
+example : (writeCsvAsIs {} ⟨[.str "ab".toList], [[.int 1]]⟩).bind (parseCsv {})
+    = some ⟨[.str "[a".toList, .str "b]".toList], [[.int 1]]⟩ := by decide
+-- C51-2: no clause of write_rows/3 for the empty list
+example : writeCsvAsIs {} ⟨[.int 1], []⟩ = none := by decide
+-- without string fields and with at least one row both writers agree
+example : writeCsvAsIs { sep := ';' } ⟨[.int 1, .null], [[.flt "2.5".toList, .int (-3)]]⟩
+    = writeCsv { sep := ';' } ⟨[.int 1, .null], [[.flt "2.5".toList, .int (-3)]]⟩ := by decide
+
 end Scryer.Csv
